@@ -32,5 +32,9 @@ Fixpoint rows_set_prefix (rows v : list (list Z)) : res (list (list Z)) :=
 (* np.isnan on a binary32 bit pattern: exponent all ones, mantissa non-zero *)
 Definition is_nan (b : Z) : bool := (b mod 2147483648) >? 2139095040.
 
+(* interned strings: the two sentinel strings "." and "" (every other string has another id) *)
+Definition str_missing : Z := -1.
+Definition str_fill : Z := -2.
+
 (* x[0] *)
 Definition py_index0 (x : list Z) : res Z := match x with [] => Err E_IndexError | a :: _ => Ok a end.
